@@ -12,16 +12,24 @@ TRUSTED.update({
 QUICK_SKIP = set()
 
 
+UF_HARNESSES = ("op_mul", "op_div", "op_rem")
+
+
 def build(ctx, res):
     vtext, vitems = VL.value_module(ctx)
     otext, oitems = VL.op_module(ctx)
+    utext, uitems = VL.op_module(ctx, uf=True)
     h = VL.expand_harness_attrs(ctx.unit_file("opeval", "harness.rs"), unwind=2)
-    lib = VL.PRELUDE + vtext + otext + VL.BIG_STUBS + h
+    lib = VL.PRELUDE + vtext + otext + VL.BIG_STUBS + VL.UF_MODULE + h
+    lib_uf = VL.PRELUDE + vtext + utext + VL.BIG_STUBS + VL.UF_MODULE + h
     names = re.findall(r"#\[vp_proof\]\s*pub fn (\w+)", ctx.unit_file("opeval", "harness.rs"))
-    hs = []
+    hs, hs_uf = [], []
     for n in names:
-        kind = "canary" if n.startswith("canary_") else "proof"
-        hs.append(Harness("harness::" + n, kind=kind, fn="Op::eval_value_unary" if n.startswith(("op_unary", "op_red", "op_bitnot", "op_logic_not")) else "Op::eval_value_binary"))
+        kind = "canary" if n.startswith("canary_") else "bounded" if n.startswith("small_") else "proof"
+        fn = "Op::eval_value_unary" if n.startswith(("op_unary", "op_red", "op_bitnot", "op_logic_not")) else "Op::eval_value_binary"
+        hx = Harness("harness::" + n, kind=kind, fn=fn, bound="context width <= 8 (real machine mul/div/rem vs i128 reference)" if kind == "bounded" else None)
+        (hs_uf if n in UF_HARNESSES else hs).append(hx)
+    TRUSTED.update(VL.UF_TRUST)
     res.clauses.update({
         "requires": "wf(x), wf(y) (payload/mask_xz within width, width<=64, width 0 only for the unsized all-bit literal); 1<=w<=64; "
                     "context-determined ops: w >= operand widths and signed ==> both operands signed; shifts: w >= x.width, signed ==> x.signed",
@@ -30,4 +38,8 @@ def build(ctx, res):
         "signed flag": "checked for arithmetic results (== expression signedness) and 1-bit results (unsigned); not constrained for bitwise/shift results",
     })
     res.samples.append({"obligation": "kani:opeval:op_eq", "contract": "definite mismatch on a position known in both -> 0; else any x/z -> x; else 1; zero-extended to w"})
-    return [KaniJob("opeval", lib, hs, deps=VL.DEPS, items=vitems + oitems, trusted=TRUSTED, jobs=14, timeout=3300, per_harness_timeout=1500)]
+    res.clauses["mul/div/rem"] = ("rule E10: u64::wrapping_mul, u64 `/` `%`, i64 checked_div/checked_rem are replaced in code and reference by the same uninterpreted "
+                                  "functions (job opeval_uf), so operand extension, x/z handling, sign conversion, zero-divisor and MIN/-1 handling and masking are proved for "
+                                  "all widths; the machine operations themselves are trusted, and cross-checked against an i128 reference at context width <= 8 (bounded stand-ins small_*)")
+    return [KaniJob("opeval", lib, hs, deps=VL.DEPS, items=vitems + oitems, trusted=TRUSTED, jobs=6, timeout=3300, per_harness_timeout=900),
+            KaniJob("opeval_uf", lib_uf, hs_uf, deps=VL.DEPS, items=uitems[-1:], trusted=TRUSTED, jobs=3, timeout=1800, per_harness_timeout=900)]
